@@ -35,9 +35,30 @@ func init() {
 	// ------------------------------------------------------------------ C01
 	register(&Prop{
 		ID: "C01", Level: "exploration", QuickS: 20, ThoroughS: 300,
-		Rule:       "seeded authentication attempts against ClearTextPassword(validator) and a custom failing strategy: validator outcome drawn per case (accept / reject / fail with either verdict flag), the client sends in place of the password message a correct, wrong or empty password, a password message without NUL / with surplus bytes / with declared length 0-3, > limit or 2^32-1, another message type, garbage, or nothing; then a generated tail of queries, extended messages, Terminate and raw bytes, pipelined in the same segment or sent after the server's reply; segmentation and a failing write are drawn per case; in a quarter of the cases an earlier connection first logs in successfully with related credentials (the same triple, whose password the validator rejects from the second time on, or a triple that reads the same when its parts are joined with a separator), a failing write is permanent or transient (exactly one write fails); non-trivial = the connection was not accepted and the client sent at least one message after its credentials; distinct = distinct case content hashes",
+		Rule:       "seeded authentication attempts against ClearTextPassword(validator) and a custom failing strategy: validator outcome drawn per case (accept / reject / fail with either verdict flag), the client sends in place of the password message a correct, wrong or empty password, a password message without NUL / with surplus bytes / with declared length 0-3, > limit or 2^32-1, another message type, garbage, or nothing; then a generated tail of queries, extended messages, Terminate and raw bytes, pipelined in the same segment or sent after the server's reply; segmentation and a failing write are drawn per case; a share of cases authenticates inside an upgraded (TLS) connection, with and without an unverified client certificate, judged against the plaintext equivalent; in a quarter of the cases an earlier connection first logs in successfully with related credentials (the same triple, whose password the validator rejects from the second time on, or a triple that reads the same when its parts are joined with a separator), a failing write is permanent or transient (exactly one write fails); non-trivial = the connection was not accepted and the client sent at least one message after its credentials; distinct = distinct case content hashes",
 		Components: e1Components, Assumptions: commonAssumptions,
 		Gen: func(r *Rand, tier string) *Case {
+			if r.Chance(1, 15) {
+				// authentication over an upgraded connection (decided with the TLS
+				// machinery of C11: the session must fare exactly like its plaintext
+				// equivalent), the validator accepting or rejecting, with and without
+				// an unverified client certificate
+				for {
+					c := genC11(r, tier)
+					if c.Server.Auth == "cleartext" && c.Variant == "tls-session" && len(c.Conns) > 0 && c.Conns[0].TLS != nil {
+						if r.Bool() {
+							for i := range c.Server.Validator {
+								c.Server.Validator[i].Out = r.Pick("reject", "fail", "failtrue")
+							}
+						}
+						if c.Server.TLSClientAuth == "" && r.Bool() {
+							c.Server.TLSClientAuth = r.Pick("request", "require-any")
+							c.Conns[0].TLS.Cert = true
+						}
+						return c
+					}
+				}
+			}
 			c := &Case{Server: ServerCfg{Auth: "cleartext", Limit: r.PickInt(64, 256, 4096)}, Programs: map[string]*Program{}}
 			if r.Chance(1, 12) {
 				c.Server.Auth = "custom-fail"
@@ -155,6 +176,13 @@ func init() {
 			return c
 		},
 		Check: func(x *Exec, c *Case) ([]Violation, bool) {
+			if len(c.Conns) > 0 && c.Conns[0].TLS != nil {
+				viol, nt := checkC11(x, c)
+				for i := range viol {
+					viol[i].Prop = "C01"
+				}
+				return viol, nt
+			}
 			r := x.Run(c)
 			var viol []Violation
 			nt := false
